@@ -39,6 +39,8 @@ Step(ev) ==
             /\ o' = [o EXCEPT !.inactive = (@ \/ ev.n = 0)] /\ Judge(ev, IsActiveViol(ev.n)) /\ UNCHANGED blk
       [] ev.e = "PeerSend" -> o' = [o EXCEPT !.sent = @ + ev.n] /\ UNCHANGED <<viol, blk>>
       [] ev.e = "PeerClose" -> o' = [o EXCEPT !.peerClosed = TRUE] /\ UNCHANGED <<viol, blk>>
+      [] ev.e = "PeerSteal" ->      \* a thief took bytes from the socket before netpoll could read them: they were never sent as far as netpoll can tell
+            /\ o' = [o EXCEPT !.sent = @ - ev.n] /\ UNCHANGED <<viol, blk>>
       [] ev.e = "PeerDrain" ->
             /\ o' = [o EXCEPT !.drained = @ + ev.n]
             \* (the guarantee covers a connection up to its first reported write error)
@@ -46,7 +48,7 @@ Step(ev) ==
       [] ev.e = "TimerFire" ->
             /\ o' = [o EXCEPT !.rtFired = IF ev.k = "read" THEN @ + 1 ELSE @, !.wtFired = IF ev.k = "write" THEN @ + 1 ELSE @]
             /\ UNCHANGED <<viol, blk>>
-      [] ev.e = "Call" -> o' = CallEff(ev.g, ev.k, ev.n, ev.m) /\ UNCHANGED <<viol, blk>>
+      [] ev.e = "Call" -> o' = CallEff(ev.g, ev.k, ev.n, ev.m, ev.err = "pastdl") /\ UNCHANGED <<viol, blk>>
       [] ev.e = "Ret" ->
             /\ o' = RetEff(ev.g, ev.k, ev.n, ev.m, ev.err)
             /\ Judge(ev, CASE ev.k = "Next" -> ReadRetViol(ev.g, ev.err, ev.m, ev.m)
